@@ -115,11 +115,139 @@ fn strategy() -> BoxedStrategy<Batch> {
 	proptest::collection::vec(ev, 0..7).prop_map(|events| Batch { events }).boxed()
 }
 
+// ---------------------------------------------------------------------------------------------
+// End to end: the real CLI handing several batches in a row to a command through --emit-events-to=file
+
+#[derive(Clone, Debug, serde::Serialize, serde::Deserialize)]
+pub struct EmitFileCase {
+	/// file names touched one per batch (lengths vary so that a later batch is shorter than an earlier one)
+	pub names: Vec<String>,
+	/// "file" or "stdio"
+	pub stdio: bool,
+}
+
+fn run_emit_file(c: &EmitFileCase) -> Outcome {
+	use std::time::{Duration, Instant};
+	let mut o = Outcome::pass();
+	let tmp = tempfile::Builder::new().prefix("vh-c17e-").tempdir_in(super::c18::scratch()).unwrap();
+	let root = tmp.path().canonicalize().unwrap();
+	let watched = root.join("watched");
+	let out = root.join("out");
+	std::fs::create_dir_all(&watched).unwrap();
+	std::fs::create_dir_all(&out).unwrap();
+	// the command stores what it was handed under out/<number of earlier runs>
+	let script = if c.stdio {
+		format!("n=$(ls {0} | wc -l); cat > {0}/$n.tmp; mv {0}/$n.tmp {0}/$n", out.display())
+	} else {
+		format!("n=$(ls {0} | wc -l); cp \"$WATCHEXEC_EVENTS_FILE\" {0}/$n.tmp; mv {0}/$n.tmp {0}/$n", out.display())
+	};
+	let mut child = match std::process::Command::new(super::c18::wx_path())
+		.current_dir(&root)
+		.env("HOME", &root)
+		.arg("--quiet")
+		.arg("-w")
+		.arg(&watched)
+		.arg("--debounce=60ms")
+		.arg(format!("--emit-events-to={}", if c.stdio { "stdio" } else { "file" }))
+		.arg("--shell=sh")
+		.arg("--")
+		.arg(&script)
+		.stdin(std::process::Stdio::null())
+		.stdout(std::process::Stdio::null())
+		.stderr(std::process::Stdio::null())
+		.spawn()
+	{
+		Ok(c) => c,
+		Err(e) => {
+			o.fail("env:wx-spawn", e.to_string());
+			return o;
+		}
+	};
+	let runs = |out: &std::path::Path| std::fs::read_dir(out).map_or(0, |d| d.filter_map(Result::ok).filter(|e| !e.file_name().to_string_lossy().ends_with(".tmp")).count());
+	let wait_runs = |n: usize, ms: u64| {
+		let until = Instant::now() + Duration::from_millis(ms);
+		while Instant::now() < until && runs(&out) < n {
+			std::thread::sleep(Duration::from_millis(10));
+		}
+		runs(&out) >= n
+	};
+	let finish = |child: &mut std::process::Child| {
+		let _ = child.kill();
+		let _ = child.wait();
+	};
+	if !wait_runs(1, 8_000) {
+		finish(&mut child);
+		o.fail("no-run-at-startup", format!("the command did not run at start-up within 8 s\ncase {c:?}"));
+		return o;
+	}
+	std::thread::sleep(Duration::from_millis(300));
+	let mut expect: Vec<(usize, String)> = Vec::new();
+	for (i, name) in c.names.iter().enumerate() {
+		let before = runs(&out);
+		let p = watched.join(format!("{name}{i}"));
+		std::fs::write(&p, b"x").unwrap();
+		if !wait_runs(before + 1, 6_000) {
+			finish(&mut child);
+			o.fail("e2e:change-not-followed-by-a-run", format!("no run within 6 s of creating {p:?}\ncase {c:?}"));
+			return o;
+		}
+		// let a possible second batch of the same write (close-write after create) come and go
+		std::thread::sleep(Duration::from_millis(400));
+		expect.push((before, p.to_string_lossy().into_owned()));
+		let _ = before;
+	}
+	finish(&mut child);
+	o.nontrivial = c.names.windows(2).any(|w| w[1].len() < w[0].len());
+	if o.nontrivial {
+		o.label("later-batch-shorter");
+	}
+	// every stored hand-over: each line is "<kind>:<path>" and names only the file touched in that round
+	let total = runs(&out);
+	let dump = |k: usize, text: &str| format!("run {k} was handed {text:?}\ncase {c:?}\nfiles touched per round (first run index, path): {expect:?}");
+	for k in 1..total {
+		let text = std::fs::read_to_string(out.join(k.to_string())).unwrap_or_default();
+		let round = expect.iter().rev().find(|(first, _)| *first <= k).map(|(_, p)| p.clone()).unwrap_or_default();
+		for line in text.lines() {
+			let ok = ["create:", "modify:", "rename:", "remove:", "other:", "access:"].iter().any(|pre| line.strip_prefix(pre).map_or(false, |p| p == round));
+			if !ok {
+				o.fail(
+					"emit-file:line-not-from-this-batch",
+					format!("a line is not '<kind>:<path>' for the file touched in that round ({round:?}): {line:?}\n{}", dump(k, &text)),
+				);
+				return o;
+			}
+		}
+		if !text.is_empty() && !text.ends_with('\n') {
+			o.fail("emit-file:line-not-from-this-batch", format!("the text does not end with a newline\n{}", dump(k, &text)));
+			return o;
+		}
+	}
+	o
+}
+
 pub fn check(e: &Engine) {
 	e.explore(
 		"simple-format",
 		LegOpts::det(e.tier.pick(30_000, 600_000), "CLI events_to_simple_format / emits_to_environment on generated batches: line list equals the reference (events, then paths, then kinds), label spelling per kind accepts documented and implemented forms"),
 		&strategy,
 		&run,
+	);
+	if !super::c18::wx_path().exists() {
+		e.inconclusive("wx binary not built next to vcheck");
+		return;
+	}
+	e.explore(
+		"emit-file-e2e",
+		LegOpts::realtime(
+			e.tier.pick(12, 200),
+			6,
+			"the real CLI with --emit-events-to=file (or stdio) running a command that stores what it is handed; 2-4 files with names of very different lengths are created one per round, so that later batches are shorter than earlier ones: every line handed to every run is '<kind>:<path>' for the file of that round, nothing is left over from an earlier batch; non-trivial = some batch is shorter than the one before",
+		),
+		&|| {
+			(proptest::collection::vec(prop_oneof![Just("b".to_string()), Just("file_with_a_rather_long_name_".to_string()), Just("mid_name_".to_string()), Just("x".repeat(60))], 2..5), any::<bool>())
+				.prop_map(|(names, stdio)| EmitFileCase { names, stdio })
+				.boxed()
+		},
+		&run_emit_file,
 	);
 }
